@@ -305,6 +305,34 @@ def v_unknown_element_in_ring(items):
     return None
 
 
+def v_ligand_halogen(items, element):
+    """Turn a terminal oxygen of a hetero ligand (one heavy neighbour) into a
+    covalently bound fluorine or chlorine, dropping its explicit hydrogen if
+    it has one: ligand group types (F, Cl) that no shipped structure has."""
+    lig = [(i, it) for i, (k, it) in enumerate(items)
+           if k == 'A' and it.tag == 'HETATM' and it.resname.strip() not in
+           ('HOH', 'ZN', 'CA', 'CL', 'NA', 'MG', 'UNL') and not it.is_hydrogen]
+    for i, o in lig:
+        if o.line[12:14].strip() != 'O':
+            continue
+        near = [j for j, a in lig if j != i and a.reskey == o.reskey
+                and P.dist2(a.xyz, o.xyz) < 1.75 ** 2]
+        if len(near) != 1 or lig[[j for j, _ in lig].index(near[0])][1].line[12:14].strip() != 'C':
+            continue
+        drop = set(j for j, (k, it) in enumerate(items)
+                   if k == 'A' and it.is_hydrogen and it.reskey == o.reskey
+                   and P.dist2(it.xyz, o.xyz) < 1.2 ** 2)
+        name = ' F1 ' if element == 'F' else 'CL1 '
+        new = o.with_name(name, element.upper() if len(element) == 2 else element)
+        out = []
+        for j, x in enumerate(items):
+            if j in drop:
+                continue
+            out.append(('A', new) if j == i else x)
+        return out
+    return None
+
+
 def v_ion_near_acid(items):
     for kind, it in items:
         if kind == 'A' and it.resname in ('ASP', 'GLU') and it.name.strip() in ('OD1', 'OE1'):
@@ -485,12 +513,21 @@ def _family(fam, base, inputs, nvar, salt):
         ('neg', lambda: v_negative_numbers(base)),
         ('blank', lambda: v_blank_chain(base)),
         ('h36', lambda: list(base)),
-        ('unkc', lambda: v_unknown_element_in_ring(base)),
         ('alt3', lambda: v_altloc3(base, salt + 4, fam)),
     ]
     for j in range(nvar):
         tag, fn = makers[(salt + j * 3) % len(makers)]
         _mk(fam, tag, fn(), inputs)
+    # variants that need a particular feature (a ligand, an aromatic ring, an
+    # acid): made wherever the feature exists, for every third family
+    special = [
+        ('unkc', lambda: v_unknown_element_in_ring(base)),
+        ('lgF', lambda: v_ligand_halogen(base, 'F')),
+        ('lgCl', lambda: v_ligand_halogen(base, 'Cl')),
+    ]
+    for n, (tag, fn) in enumerate(special):
+        if nvar and (salt + n) % 3 == 0 or tag.startswith('lg') and nvar:
+            _mk(fam, tag, fn(), inputs)
 
 
 def build(repo, size='full'):
